@@ -1,8 +1,46 @@
-import PybtexModel.Drv.Json
+import PybtexModel.Drv.DbJson
 open Lean
 namespace Pybtex.Drv.C05
+open Pybtex.Drv.DbJson
+
+/-- one reading mode: read the file (filtered by the citations or not), then `add_extra_citations` -/
+def modeJ (wanted : Option (List Str)) (file : List (Str × Entry)) (cits : List Str) (m : Int) : Json :=
+  match BibData.readFile wanted file with
+  | none => Json.str "KeyError"
+  | some (db, rep0) =>
+    let a := db.addExtraCitations cits m
+    obj [("db", strs (CIDict.iter db.entries)),
+         ("entry_keys", optJ (fun l => strs (l.map fun p => p.2.key)) (CIDict.items db.entries)),
+         ("read_reports", reportsJ rep0),
+         ("expanded", strs (db.expandWildcard cits)),
+         ("resolved", strs a.1), ("reports", reportsJ a.2)]
+
+def engineJ : Option EngineOut → Json
+  | none => Json.str "KeyError"
+  | some o => obj [("keys", strs o.keys), ("reports", reportsJ o.reports)]
+
+/-- `resolve`: file + citations + min_crossrefs → resolved list and reports, for both reading
+modes and both engine front ends (model), and the reference values (spec). -/
+def resolve (j : Json) : Except String Json := do
+  let raw ← parseFile j
+  let cits ← getStrList j "citations"
+  let m ← getInt j "min_crossrefs"
+  let file := toModelFile raw
+  let sfile := toSpecFile raw
+  let sdb := Spec.readAll sfile
+  let res := Spec.resolved sdb cits m
+  pure (obj [
+    ("out", obj [("unfiltered", modeJ none file cits m), ("filtered", modeJ (some cits) file cits m),
+                 ("bibtex", engineJ (bibtexEngine file cits m)), ("python", engineJ (pythonEngine file cits m))]),
+    ("spec", obj [("db", strs (Spec.keys sdb)), ("repeated", strs (Spec.repeatedFrom [] sfile)),
+                  ("expanded", strs (Spec.expanded sdb cits)),
+                  ("extra", strs (Spec.extra sdb (Spec.expanded sdb cits) m)),
+                  ("resolved", strs res),
+                  ("dangling", arr ((Spec.dangling sdb (Spec.expanded sdb cits)).map fun p => arr [strToJson p.1, strToJson p.2])),
+                  ("missing", strs (Spec.missing sdb res)), ("present", strs (Spec.present sdb res)),
+                  ("proviso", Json.bool (Spec.proviso sfile cits))])])
 
 /-- driver ops of this property: (op name, handler) -/
-def handlers : List (String × (Json → Except String Json)) := []
+def handlers : List (String × (Json → Except String Json)) := [("resolve", resolve)]
 
 end Pybtex.Drv.C05
